@@ -8,6 +8,7 @@ import json, os, re, shutil, subprocess, sys, tempfile, time, hashlib, glob
 VERIF = os.path.dirname(os.path.dirname(os.path.abspath(__file__)))
 REPO = os.environ.get("VERIF_REPO", "/repo")
 TLAJAR = "/opt/veriftools/tla/tla2tools.jar:/opt/veriftools/tla/CommunityModules-deps.jar"
+FINDINGS = os.environ.get("VERIF_FINDINGS") or os.path.join(VERIF, "known_findings.json")
 GOENV = {"GOFLAGS": "-mod=mod", "GOPROXY": "off", "GOSUMDB": "off", "GOTOOLCHAIN": "local"}
 
 
@@ -51,7 +52,7 @@ class Ctx:
     # ---------------------------------------------------------------- known findings
     def known(self):
         """Entries of /verif/known_findings.json for this property with status 'known'."""
-        p = os.path.join(VERIF, "known_findings.json")
+        p = FINDINGS
         if not os.path.exists(p):
             return []
         allk = json.load(open(p))
@@ -59,7 +60,7 @@ class Ctx:
 
     def known_devs(self, props=None):
         """Deviation names listed as known for this property (or for the given properties)."""
-        p = os.path.join(VERIF, "known_findings.json")
+        p = FINDINGS
         if not os.path.exists(p):
             return []
         props = props or [self.pid]
@@ -68,7 +69,7 @@ class Ctx:
 
     def finding_status(self, fid):
         """'known', 'fixed' or None for a finding id (F01...)."""
-        p = os.path.join(VERIF, "known_findings.json")
+        p = FINDINGS
         if not os.path.exists(p):
             return None
         for e in json.load(open(p)).get("findings", []):
@@ -152,7 +153,7 @@ class Ctx:
         return os.path.join(dst, module_dir)
 
     def tlc(self, module_dir, module, cfg, workers=None, timeout=600, env=None, dfs=False,
-            simulate=None, depth=None, coverage=False, heap="8g", extra=(), seed=None, deadlock=True):
+            simulate=None, depth=None, coverage=False, heap="6g", extra=(), seed=None, deadlock=True):
         d = self._spec_copy(module_dir)
         meta = tempfile.mkdtemp(prefix="meta-", dir=self.scratch)
         if workers is None:
